@@ -8,6 +8,8 @@ import Driver.GateOps
 import Driver.PipeOps
 import Driver.FilterOps
 import Driver.ValidOps
+import Driver.CapsOps
+import Driver.LoadOps
 open Lean Driver
 
 def dispatch (op : String) (j : Json) : Except String Json :=
@@ -32,6 +34,8 @@ def dispatch (op : String) (j : Json) : Except String Json :=
   | "filter.applies" => filterApplies j
   | "filter.case" => filterCase j
   | "valid.case" => validCase j
+  | "caps.case" => capsCase j
+  | "load.case" => loadCase j
   | "ping" => pure (Json.mkObj [("pong", true)])
   | _ => throw s!"unknown op {op}"
 
